@@ -2,44 +2,29 @@
    A gap g is what lies between two consecutive tokens (Model/Comments.v): whether there is a previous
    token, newlines, comments (line or block, with their text and the newlines that follow), the kind of
    the next token.  go_attribution g = what parser/lexer.go + sourceinfo.attributeComments + combineComments
-   + newLocWithGivenComments make of it at the pinned commit (trailing comment of the previous declaration,
-   detached comments and leading comment of the next one); next_with_comments g = what protoc's
-   Tokenizer::NextWithComments + AttachComments make of it (Model/ProtocComments.v); observable drops
-   what neither compiler can emit (detached and leading comments before a closing token or the end of
-   the file).  wf_gap: a line comment is followed by a newline unless it ends the file.
+   + newLocWithGivenComments make of it (trailing comment of the previous declaration, detached comments
+   and leading comment of the next one); next_with_comments g = what protoc's Tokenizer::NextWithComments
+   + AttachComments make of it (Model/ProtocComments.v); observable drops what neither compiler can
+   emit (detached and leading comments before a closing token or the end of the file).  wf_gap: a line
+   comment is followed by a newline unless it ends the file.
+
+   go_attribution is the code as it is now, i.e. with the repairs e67d3d01, 574d1b31 and 1915eb6c;
+   go_attribution_pinned is the code before them (cfg_pinned), for which the property is refuted.
 
    known_protoc_corrections (Model/ProtocComments.v) transcribes the corrections that
    sourceinfo/source_code_info_test.go applies to protoc's output: they select locations by path
    (default_value spans, the duplicate json_name location) and none of them concerns comments, so the
-   statements about comments below carry no exception for them; checks/C03.py applies them when it compares
+   statements about comments carry no exception for them; checks/C03.py applies them when it compares
    paths and spans with protoc's golden output. *)
 From Coq Require Import List NArith ZArith Bool Arith.
 From PV Require Import Common.Bytes Model.Lexer Model.Comments Model.ProtocComments Proofs.Comments.
 Import ListNotations.
 
-(* the pinned code does NOT agree with protoc on every gap: three classes, one witness each
-   (g_sep: a comment on the line before a lone semicolon; g_empty: an empty block comment; g_cr: a block
-   comment with a line that starts with a carriage return) *)
-Theorem C03_comments_eq_protoc_refuted :
-  (wf_gap g_sep /\ observable (g_next g_sep) (go_attribution g_sep) <> observable (g_next g_sep) (next_with_comments g_sep)) /\
-  (wf_gap g_empty /\ observable (g_next g_empty) (go_attribution g_empty) <> observable (g_next g_empty) (next_with_comments g_empty)) /\
-  (wf_gap g_cr /\ observable (g_next g_cr) (go_attribution g_cr) <> observable (g_next g_cr) (next_with_comments g_cr)).
-Proof. exact comments_eq_refuted_lemma. Qed.
-Print Assumptions C03_comments_eq_protoc_refuted.
-
-(* it does on every other gap: the next token is not a comma or semicolon, and every comment of the gap
-   has a non-empty text on which the two ways of stripping a block comment agree (gap_ok, unit_ok) *)
-Theorem C03_comments_eq_protoc_partial : forall g,
-  wf_gap g -> g_next g <> NSep -> gap_ok cfg_asis g ->
-  observable (g_next g) (go_attribution g) = observable (g_next g) (next_with_comments g).
-Proof. exact comments_eq_partial_lemma. Qed.
-Print Assumptions C03_comments_eq_protoc_partial.
-
-(* with the three proposed repairs (fixes/C03-*.diff, cfg_fixed) it does on every gap *)
-Theorem C03_comments_eq_protoc_fixed : forall g,
-  wf_gap g -> observable (g_next g) (go_attribution_fixed g) = observable (g_next g) (next_with_comments g).
-Proof. exact comments_eq_fixed_lemma. Qed.
-Print Assumptions C03_comments_eq_protoc_fixed.
+(* the comments this compiler attaches around a gap are those protoc attaches: every gap *)
+Theorem C03_comments_eq_protoc : forall g,
+  wf_gap g -> observable (g_next g) (go_attribution g) = observable (g_next g) (next_with_comments g).
+Proof. exact comments_eq_protoc_lemma. Qed.
+Print Assumptions C03_comments_eq_protoc.
 
 (* who gets which comment, independent of the texts: for every configuration of the model the Go code and
    protoc split the comments of a gap into the same trailing group, detached groups and leading group,
@@ -51,17 +36,9 @@ Proof. exact attribution_eq_lemma. Qed.
 Print Assumptions C03_attribution_eq_protoc.
 
 (* combineComments against protoc's ConsumeLineComment / ConsumeBlockComment, one comment at a time *)
-Theorem C03_combine_comments_text_refuted : exists u, go_ctext cfg_asis u <> spec_content u.
-Proof. exact combine_comments_text_refuted_lemma. Qed.
-Print Assumptions C03_combine_comments_text_refuted.
-
-Theorem C03_combine_comments_text_partial : forall cf u, text_ok cf u = true -> go_ctext cf u = spec_content u.
-Proof. exact combine_comments_text_lemma. Qed.
-Print Assumptions C03_combine_comments_text_partial.
-
-Theorem C03_combine_comments_text_fixed : forall u, go_ctext cfg_fixed u = spec_content u.
-Proof. exact combine_comments_text_fixed_lemma. Qed.
-Print Assumptions C03_combine_comments_text_fixed.
+Theorem C03_combine_comments_text : forall u, go_ctext cfg_repaired u = spec_content u.
+Proof. exact combine_comments_text_repaired_lemma. Qed.
+Print Assumptions C03_combine_comments_text.
 
 (* the three outputs of attributeComments split the comments of the gap, in order, none lost or repeated *)
 Theorem C03_roles_partition : forall cf extra g,
@@ -76,14 +53,41 @@ Theorem C03_comment_used_once : forall cf extra optlocs gaps rs,
 Proof. exact comment_used_once_lemma. Qed.
 Print Assumptions C03_comment_used_once.
 
-(* non-vacuity: a gap with a trailing comment, a detached comment and a leading block comment *)
+(* ---- the code before the repairs (historical): refuted, and where it did hold ---- *)
+(* three classes, one witness each (g_sep: a comment on the line before a lone semicolon; g_empty: an empty
+   block comment; g_cr: a block comment with a line that starts with a carriage return) *)
+Theorem C03_comments_eq_protoc_pinned_refuted :
+  (wf_gap g_sep /\ observable (g_next g_sep) (go_attribution_pinned g_sep) <> observable (g_next g_sep) (next_with_comments g_sep)) /\
+  (wf_gap g_empty /\ observable (g_next g_empty) (go_attribution_pinned g_empty) <> observable (g_next g_empty) (next_with_comments g_empty)) /\
+  (wf_gap g_cr /\ observable (g_next g_cr) (go_attribution_pinned g_cr) <> observable (g_next g_cr) (next_with_comments g_cr)).
+Proof. exact comments_eq_refuted_lemma. Qed.
+Print Assumptions C03_comments_eq_protoc_pinned_refuted.
+
+(* the next token is not a comma or semicolon, and every comment of the gap has a non-empty text on which the
+   two ways of stripping a block comment agree (gap_ok, unit_ok) *)
+Theorem C03_comments_eq_protoc_pinned_partial : forall g,
+  wf_gap g -> g_next g <> NSep -> gap_ok cfg_pinned g ->
+  observable (g_next g) (go_attribution_pinned g) = observable (g_next g) (next_with_comments g).
+Proof. exact comments_eq_partial_lemma. Qed.
+Print Assumptions C03_comments_eq_protoc_pinned_partial.
+
+Theorem C03_combine_comments_text_pinned_refuted : exists u, go_ctext cfg_pinned u <> spec_content u.
+Proof. exact combine_comments_text_refuted_lemma. Qed.
+Print Assumptions C03_combine_comments_text_pinned_refuted.
+
+Theorem C03_combine_comments_text_partial : forall cf u, text_ok cf u = true -> go_ctext cf u = spec_content u.
+Proof. exact combine_comments_text_lemma. Qed.
+Print Assumptions C03_combine_comments_text_partial.
+
+(* non-vacuity: a gap with a trailing comment, a detached comment and a leading block comment; the boolean
+   form of wf_gap that the correspondence evaluates on every real gap is the same predicate *)
 Example C03_nonvacuous :
   let g := mkgap true 0 [mkunit false [32; 116]%N 2; mkunit false [32; 100]%N 2; mkunit true [32; 97; 10; 32; 42; 32; 98; 32]%N 1] NOther in
-  wf_gap g /\ gap_ok cfg_asis g /\
+  wf_gap g /\
   go_attribution g = (Some [32; 116; 10]%N, [[32; 100; 10]%N], Some [32; 97; 10; 32; 98; 32]%N) /\
-  next_with_comments g = go_attribution g.
+  next_with_comments g = go_attribution g /\
+  (forall g', wf_gapb g' = true <-> wf_gap g').
 Proof.
   cbn zeta. split; [cbn; repeat split; intros; discriminate|].
-  split; [repeat (constructor; [split; [vm_compute; reflexivity|right; vm_compute; discriminate]|]); constructor|].
-  split; vm_compute; reflexivity.
+  split; [vm_compute; reflexivity|]. split; [vm_compute; reflexivity|]. exact wf_gapb_iff.
 Qed.
